@@ -6,6 +6,7 @@ functions in /verif/kani/harness/*.rs; they are BOUNDED stand-ins unless marked 
 """
 
 V = ['arena']
+VR = ['arena', 'rawvec']
 
 PLAN = {
     'C01': dict(v=V, level='proof',
@@ -69,11 +70,11 @@ PLAN = {
                 explanation='Result fits the new layout (size, both alignments), Err => nothing changed, in-place moves stay inside the old block and never overlap source and '
                             'destination, fresh blocks are disjoint from the old one; deallocate of a non-last block is a no-op. The Allocator glue (slice length, zeroed tail) and '
                             'byte preservation are bounded Kani harnesses.'),
-    'C18': dict(v=V, level='proof', k_quick=[], k_thorough=[],
+    'C18': dict(v=VR, level='proof', k_quick=[], k_thorough=[],
                 technique='Verus: capacity postcondition of the constructor, chunk_capacity spec + fast-path completeness; growth policy by Kani; RawVec arithmetic by Verus',
                 explanation='try_with_min_align_and_capacity(c) is verified to return an arena whose current chunk has finger - data >= c; chunk_capacity returns finger - data and '
                             'fast.complete says every request with rup(size) <= that fits. "New chunk >= 2x previous" is a bounded Kani check of the real slow path.'),
-    'C19': dict(v=V, level='proof', k_quick=[], k_thorough=[],
+    'C19': dict(v=VR, level='proof', k_quick=[], k_thorough=[],
                 technique='Verus: checked arithmetic obligations for all sizes up to usize::MAX; Kani on the generic entry points at the refusing side',
                 explanation='round_up_to/layout_from_size_align/new_chunk_memory_details/grow are verified to refuse exactly the unrepresentable sizes and never to wrap; on success the '
                             'reserved extent equals the request.'),
